@@ -45,9 +45,20 @@ def convert(src, **opts):
 
     opts = dict(opts)
     sc = opts.pop("string_configs", None)
+    share = opts.pop("share_config", False)
     if sc is not None:
-        opts["compiler_configs"] = CompilerConfigs(string_configs=StringConfigs(strname_to_size=dict(sc)))
+        if share:
+            # the caller keeps one configuration object and passes it to every conversion of the process (equal option *values* every time)
+            key = repr(sorted(sc.items()))
+            if key not in _SHARED_CONFIGS:
+                _SHARED_CONFIGS[key] = CompilerConfigs(string_configs=StringConfigs(strname_to_size=dict(sc)))
+            opts["compiler_configs"] = _SHARED_CONFIGS[key]
+        else:
+            opts["compiler_configs"] = CompilerConfigs(string_configs=StringConfigs(strname_to_size=dict(sc)))
     return compiler.convert(src, **opts)
+
+
+_SHARED_CONFIGS = {}
 
 
 def try_convert(src, **opts):
